@@ -248,9 +248,38 @@ def drive(recipe):
         ids = [a for a in order if a in S]
         return PromoleculeDensity((np.array([z[a - 1] for a in ids]), coords(pose, ids)))
 
+    how = recipe.get("how") or ""
+
+    def call(fn, P):
+        """Evaluate fn at the points P the way the recipe says: in one call, in batches of k points (a value depends only on
+        its point, not on how many points travel with it), or through one buffer array that is refilled in place between two
+        calls on the same object while the first result is scribbled on (nothing may be remembered by array identity).
+        Returns (values, argument_was_modified)."""
+        if how.startswith("chunks"):
+            k = int(how[6:])
+            parts, mut = [], False
+            for i in range(0, len(P), k):
+                arg = P[i:i + k].copy()
+                parts.append(np.asarray(fn(arg), dtype=np.float64).reshape(-1))
+                mut |= not np.array_equal(arg, P[i:i + k])
+            return np.concatenate(parts), mut
+        if how == "reuse":
+            buf = np.ascontiguousarray(P[::-1] * 0.75 + 0.3)
+            first = fn(buf)
+            try:
+                first *= 100.0
+            except Exception:
+                pass
+            buf[:] = P
+            out = np.array(fn(buf), dtype=np.float64)
+            return out, not np.array_equal(buf, P)
+        arg = P.copy()
+        out = np.asarray(fn(arg), dtype=np.float64)
+        return out, not np.array_equal(arg, P)
+
     for ev in recipe["events"]:
         kind = ev[0]
-        rec = {"ev": kind, "exc": "", "f": {}}
+        rec = {"ev": kind, "exc": "", "f": {}, "argmut": False}
         try:
             if kind == "Eval":
                 rec["set"] = ev[1]
@@ -263,7 +292,7 @@ def drive(recipe):
                     bigp[-len(P):] = P
                     rec["f"]["obs"] = np.asarray(dens(set(ev[1])).rho(bigp), dtype=np.float64)[-len(P):]
                 else:
-                    rec["f"]["obs"] = np.asarray(dens(set(ev[1])).rho(P), dtype=np.float64)
+                    rec["f"]["obs"], rec["argmut"] = call(dens(set(ev[1])).rho, P)
                 calls.append("PromoleculeDensity((Z%s, pos)).rho(pts)" % (ev[1] if len(ev[1]) < 5 else "[%d atoms]" % len(ev[1])))
             elif kind == "Permute":
                 rec["perm"] = ev[1]
@@ -293,7 +322,9 @@ def drive(recipe):
                     else:
                         sw = StockholderWeight(PromoleculeDensity((za, coords(pose, ia))),
                                                PromoleculeDensity((zb, coords(pose, ib))), **kw)
-                    return np.asarray(sw.weights(pts), dtype=np.float64)
+                    w, mut = call(sw.weights, pts)
+                    rec["argmut"] = bool(rec["argmut"] or mut)
+                    return w
                 rec["f"]["wab"] = weight(set(ev[1]), set(ev[2]))
                 rec["f"]["wba"] = weight(set(ev[2]), set(ev[1]))
                 calls.append("StockholderWeight%s(...).weights(pts)" % (".from_arrays" if ev[4] == "arrays" else ""))
@@ -410,6 +441,15 @@ def _recipes(ctx):
         if r["kind"] == "molecule" and nemb < ctx.pick(8, 80) and len(r["z"]) <= 12:
             r["embed"] = rng.choice([32769, 40000, 70001])
             nemb += 1
+    # how the calls are made: whole arrays, batches of 1-7 points, or one buffer refilled in place between calls
+    for r in recipes:
+        if r.get("embed"):
+            continue
+        u = rng.random()
+        if u < 0.25:
+            r["how"] = "chunks%d" % rng.randint(1, 7)
+        elif u < 0.40:
+            r["how"] = "reuse"
     return els, recipes
 
 
